@@ -650,6 +650,10 @@ func (p *Printer) wordParts(wps []WordPart, quoted bool) {
 			p.w.WriteString("\\\n")
 			p.line++
 		}
+		if i > 0 {
+			// No space can be required in the middle of a word, like foo>(bar).
+			p.wantSpace = spaceNotRequired
+		}
 		p.wordPart(wp, next)
 		p.advanceLine(wp.End().Line())
 	}
@@ -1565,6 +1569,8 @@ func (p *Printer) assigns(assigns []*Assign) {
 			// because that can result in indentation, thus
 			// splitting "foo=bar" into "foo= bar".
 			p.advanceLine(a.Value.Pos().Line())
+			// No space must follow '=', even after an index like a[1]=<(foo).
+			p.wantSpace = spaceNotRequired
 			p.word(a.Value)
 		} else if a.Array != nil {
 			p.wantSpace = spaceNotRequired
